@@ -76,8 +76,8 @@ impl Property for C05 {
 
     fn runs(tier: Tier) -> u64 {
         match tier {
-            Tier::Quick => 300_000,
-            Tier::Thorough => 30_000_000,
+            Tier::Quick => 600_000,
+            Tier::Thorough => 60_000_000,
         }
     }
 
